@@ -11,8 +11,8 @@ from ..defs_common import FAM, regen_or_report
 from ..defs_emit_common import (F, build_corpus, closure_case, closure_coq, closure_files, closure_model_ok, cz, read_py,
                                 run_emit, EXC_CODE)
 
-THEOREMS = ["C16_combined", "C16_combined_closure", "C16_combined_refuted_alias_of_struct",
-            "C16_combined_refuted_struct_of_msg", "C16_combined_refuted_two_reserved", "C16_ex_roundtrip"]
+THEOREMS = ["C16_combined", "C16_combined_closure", "C16_combined_exact", "C16_combined_refuted_alias_of_struct",
+            "C16_combined_refuted_struct_of_msg", "C16_two_reserved_roundtrip", "C16_ex_roundtrip"]
 CORE_THEOREMS = ["C16_core_current", "C16_core_nonempty"]
 
 K_ALIAS_STRUCT = "combined:alias-of-struct"
@@ -27,10 +27,23 @@ Fixpoint zl_eqb (a b : list Z) : bool :=
 Fixpoint sl_eqb (a b : list string) : bool :=
   match a, b with [], [] => true | x :: r, y :: s => String.eqb x y && sl_eqb r s | _, _ => false end.
 Definition norm_code (k : Z) : Z := if k =? 3 then 14 else k.
-(* case: (auto_pad, closure, (code of the first parse, code of re-parsing the combined YAML, same parsed model?,
-          the theorem's condition as evaluated by the harness on the source)) *)
-Definition check_case (c : bool * closure * (Z * Z * bool)) : bool :=
-  let '(ap, cl, (c1, c2, same)) := c in
+(* decidable reading of same_defs for the comparison with the implementation: the user's entries of message_ids /
+   message_defs (everything but the _RESERVED_nnnnnn placeholders) in order, the placeholders as a multiset of ids *)
+Definition user_part (st : pstate) : pstate :=
+  mkPS (ps_consts st) (ps_strs st) (ps_aliases st) (ps_hids st) (ps_mids st) (filter user_mt (ps_mts st)) (ps_structs st)
+       (filter user_def (ps_msgs st)).
+Definition rsv_ids (st : pstate) : list Z := map snd (filter (fun x => negb (user_mt x)) (ps_mts st)).
+Definition rsv_def_ids (st : pstate) : list Z :=
+  map (fun d => match pd_id d with Some i => i | None => -1 end) (filter (fun d => negb (user_def d)) (ps_msgs st)).
+Definition zcount (x : Z) (l : list Z) : nat := List.length (filter (Z.eqb x) l).
+Definition zperm (a b : list Z) : bool := forallb (fun x => Nat.eqb (zcount x a) (zcount x b)) (a ++ b).
+Definition equiv_b (st st' : pstate) : bool :=
+  zl_eqb (flat_state (user_part st)) (flat_state (user_part st')) && sl_eqb (names_state (user_part st)) (names_state (user_part st'))
+  && zperm (rsv_ids st) (rsv_ids st') && zperm (rsv_def_ids st) (rsv_def_ids st').
+(* case: (auto_pad, closure, (code of the first parse, code of re-parsing the combined YAML, same parsed model
+          (entry for entry)?, same parsed model up to the position of the reserved placeholders?)) *)
+Definition check_case (c : bool * closure * (Z * Z * bool * bool)) : bool :=
+  let '(ap, cl, (c1, c2, same, equiv)) := c in
   match closure_items cl with
   | None => negb (c1 =? 0)
   | Some l =>
@@ -39,9 +52,12 @@ Definition check_case (c : bool * closure * (Z * Z * bool)) : bool :=
       (c1 =? 0) &&
       match reparse_combined ap l with
       | POk st' => (c2 =? 0) && Bool.eqb same (zl_eqb (flat_state st) (flat_state st') && sl_eqb (names_state st) (names_state st'))
+                   && Bool.eqb equiv (equiv_b st st')
       | r => norm_code (code_of r) =? c2
       end &&
-      (* the theorem, instantiated: under its condition the round trip is the identity *)
+      (* the theorems, instantiated: under their conditions the round trip gives the same definitions /
+         the very same state *)
+      (if backward_uses l && legal_names l then (c2 =? 0) && equiv else true) &&
       (if backward_uses l && (Nat.leb (count_reserved l) 1) then (c2 =? 0) && same else true)
     | r => norm_code (code_of r) =? c1
     end
@@ -56,6 +72,22 @@ def model_key(m: dict) -> dict:
     return dict(constants=[[c[0], c[1]] for c in m["constants"]], strings=m["string_constants"],
                 aliases=[a[:5] for a in m["aliases"]], hids=[h[:2] for h in m["host_ids"]], mids=[h[:2] for h in m["module_ids"]],
                 mts=[h[:2] for h in m["message_ids"]], structs=[fd(s) for s in m["structs"]], messages=[fd(s) for s in m["messages"]])
+
+
+def _user_name(n: str) -> bool:
+    """Parser.check_name: declared names start with a letter; the placeholders of a _RESERVED_ block are _RESERVED_nnnnnn"""
+    return n[:1].isascii() and n[:1].isalpha()
+
+
+def canon_key(k: dict) -> dict:
+    """model_key up to the position of the reserved placeholders in message_ids / message_defs (Coq: same_defs):
+    the user's entries in order, the placeholders as a sorted multiset"""
+    out = dict(k)
+    out["mts"] = [x for x in k["mts"] if _user_name(x[0])]
+    out["mts_reserved"] = sorted(x for x in k["mts"] if not _user_name(x[0]))
+    out["messages"] = [d for d in k["messages"] if _user_name(d["name"])]
+    out["messages_reserved"] = sorted((d for d in k["messages"] if not _user_name(d["name"])), key=lambda d: json.dumps(d, sort_keys=True))
+    return out
 
 
 def first_model_diff(a: dict, b: dict) -> str:
@@ -103,6 +135,12 @@ def extra_closures() -> List[dict]:
     out.append(dict(tag="two-reserved", cl=dict(files=[
         dict(path="root.yaml", imports=[1], items=[("msg", "M1", 5, F(("a", "int32", None))), ("reserved", [10, (12, 14)])]),
         dict(path="a.yaml", imports=[], items=[("reserved", [100, 101])])], auto_pad=True, import_coredefs=False), coq=True))
+    out.append(dict(tag="three-reserved", cl=dict(files=[
+        dict(path="root.yaml", imports=[1, 2], items=[("msg", "M1", 5, F(("a", "int32", None))), ("reserved", [10, (12, 14)]),
+                                                      ("msg", "M2", 6, F(("m", "MA", None)))]),
+        dict(path="sub/a.yaml", imports=[2], items=[("reserved", [100, 101]), ("msg", "MA", 7, F(("b", "MB", ("lit", 2))))]),
+        dict(path="sub/b.yaml", imports=[], items=[("msg", "MB", 8, F(("c", "uint16", None))), ("reserved", [(200, 201)]), ("msg", "SG", 9, None)])],
+        auto_pad=True, import_coredefs=False), coq=True))
     out.append(dict(tag="struct-reuses-message", cl=dict(files=[
         dict(path="root.yaml", imports=[1], items=[("struct", "S1", ("reuse", "M0"))]),
         dict(path="a.yaml", imports=[], items=[("msg", "M0", 10, F(("q", "uint16", ("lit", 2))))])], auto_pad=True, import_coredefs=False), coq=True))
@@ -151,7 +189,7 @@ def run(chk: Check):
     dist: Dict[str, int] = {}
     ndet_ok = 0
     coq_cases, coq_idx = [], []
-    rt_stats = dict(identical=0, differs=0, rejected=0)
+    rt_stats = dict(identical=0, reserved_placeholders_moved=0, differs=0, rejected=0, closures_with_several_reserved_blocks=0)
     nontrivial = set()
     for k, (c, res) in enumerate(zip(corpus, results)):
         tag = c["tag"].split(":")[0] if not c["tag"].startswith("rnd:") else c["tag"]
@@ -162,7 +200,7 @@ def run(chk: Check):
         replay = dict(files=closure_files(c["cl"]), root=c["cl"]["files"][0]["path"], auto_pad=c["cl"].get("auto_pad", True),
                       import_coredefs=c["cl"].get("import_coredefs", False), tag=c["tag"])
         c1 = 0 if res["ok"] else EXC_CODE.get(res["exc"], 99)
-        c2, same = 0, False
+        c2, same, equiv = 0, False, False
         if res["ok"]:
             # (a)
             det = res.get("det")
@@ -186,6 +224,8 @@ def run(chk: Check):
                     chk.spec_failure("combined:not-produced", "no combined YAML was produced", replay)
                 continue
             cs = source_rt_classes(c["cl"])
+            if K_RESERVED in cs:
+                rt_stats["closures_with_several_reserved_blocks"] += 1
             nontrivial.add((tuple(sorted(cs)), len(c["cl"]["files"]), len(res["model"]["structs"]), len(res["model"]["messages"])))
             if not rt["ok"]:
                 c2 = EXC_CODE.get(rt["exc"], 99)
@@ -197,18 +237,23 @@ def run(chk: Check):
             else:
                 a, b = model_key(res["model"]), model_key(rt["model"])
                 same = a == b
+                ca, cb = canon_key(a), canon_key(b)
+                equiv = ca == cb
                 if same:
                     rt_stats["identical"] += 1
+                elif equiv:
+                    # same ids, hashes, sizes, layouts; the placeholders of several _RESERVED_ blocks sit together
+                    rt_stats["reserved_placeholders_moved"] += 1
                 else:
                     rt_stats["differs"] += 1
-                    d = first_model_diff(a, b)
+                    d = first_model_diff(ca, cb)
                     key = K_RESERVED if (K_RESERVED in cs and d.startswith(("mts", "messages"))) else "combined:model-differs"
                     chk.spec_failure(key, "re-parsing the combined YAML gives different ids/hashes/sizes/layouts: " + d, replay)
                 if rt["opts"] and rt["opts"].get("IMPORT_COREDEFS") is not False:
                     chk.spec_failure("combined:options", f"combined YAML does not switch the core import off: {rt['opts']}", replay)
         if c["coq"] and closure_model_ok(c["cl"]):
             coq_cases.append(f"({'true' if c['cl'].get('auto_pad', True) else 'false'}, {closure_coq(c['cl'])}, "
-                             f"({cz(c1)}, {cz(c2)}, {'true' if same else 'false'}))")
+                             f"({cz(c1)}, {cz(c2)}, {'true' if same else 'false'}, {'true' if equiv else 'false'}))")
             coq_idx.append(k)
 
     # ---- (c) core definitions
@@ -222,7 +267,8 @@ def run(chk: Check):
                        "times (in-process; in-process again after ANOTHER closure was compiled in between, from another closure location, cwd and "
                        "output dir; in a fresh interpreter with another PYTHONHASHSEED) and all five outputs compared byte for byte. "
                        "(b) every corpus closure: combined YAML re-parsed by the real Parser with the options it carries; ids, hashes, sizes, "
-                       "alignments, field tables compared with the first parse; Model/Emit.v (parse, combined_items, re-parse, theorem condition) "
+                       "alignments, field tables compared with the first parse (entry for entry, and up to the position of the reserved "
+                       "placeholders); Model/Emit.v (parse, combined_items, re-parse, theorem conditions) "
                        "evaluated by vm_compute on the same closures. (c) the three shipped YAML files compiled by the real compiler and compared "
                        "with the shipped core_defs.py textually and through the imported modules (ids, hashes, sizes, every field's descriptor, "
                        "width, length, offset); and C16_core_current by vm_compute over Gen/CoreYaml.v and Gen/CoreDefs.v")
@@ -237,7 +283,10 @@ def run(chk: Check):
         "content of the claim is that the implementation has no hidden input (cwd, output dir, hash seed, earlier compilations in the process)",
         "the version string is the same in all runs (same package); time is not an input of the compiler",
         "type_hash is not part of the Coq-side core computation (SHA-256 not modelled here); it is compared on the implementation side",
-        "C16_combined condition: no alias names a struct of the closure, no struct body names a message of the closure, at most one _RESERVED_ block",
+        "C16_combined condition: no alias names a struct of the closure, no struct body names a message of the closure; declared and "
+        "referenced names start with a letter (Parser.check_name, not modelled in Model/Emit.v's step: a hypothesis of the theorem); "
+        "`same` = equal up to the position of the _RESERVED_nnnnnn placeholders in message_ids / message_defs (same_defs), "
+        "entry for entry when the closure has at most one _RESERVED_ block (C16_combined_exact)",
     ]
     if bad:
         for b in bad[:4]:
@@ -317,6 +366,7 @@ def replay(path: str) -> int:
         rt = res["rt"]
         out["reparse"] = dict(ok=rt["ok"], exc=rt["exc"], msg=rt["msg"])
         if rt["ok"]:
-            out["first_difference"] = first_model_diff(model_key(res["model"]), model_key(rt["model"]))
+            out["first_difference"] = first_model_diff(canon_key(model_key(res["model"])), canon_key(model_key(rt["model"])))
+            out["first_difference_entry_for_entry"] = first_model_diff(model_key(res["model"]), model_key(rt["model"]))
     print(json.dumps(out, indent=1))
     return 0
